@@ -188,7 +188,7 @@ void harness(void) {
 	KSI_TreeBuilder *b = nondet_bool() ? &g_tb : NULL;
 	if (!mk_builder_small()) return;
 	if (nondet_bool()) g_tb.rootNode = &g_occ;
-	__CPROVER_assume(g_w1 < g_w2 && g_w2 < KSI_TREE_BUILDER_STACK_LEN);   /* witness indices (harness artefact) */
+	if (!(g_w1 < g_w2 && g_w2 < KSI_TREE_BUILDER_STACK_LEN)) return;       /* witness indices */
 	g_live = 7; g_alloc_failed = 0;
 	tr_init();
 	live0 = g_live; failed0 = g_alloc_failed; root0 = g_tb.rootNode; s1 = g_tb.stack[g_w1]; s2 = g_tb.stack[g_w2];
